@@ -10,7 +10,7 @@ from core import cfg_text
 CTOR_OPS = {"default", "with_capacity", "new", "init", "from_vec", "from_box"}
 INSERT_OPS = {"insert_row", "push_row", "insert_col", "push_col"}
 REMOVE_OPS = {"remove_row", "pop_row", "remove_col", "pop_col"}
-DRAIN_OPS = {"d_next", "d_next_back", "d_len", "d_drop", "d_nth", "d_nth_back", "d_count", "d_last", "d_collect", "d_rcollect"}
+DRAIN_OPS = {"d_next", "d_next_back", "d_len", "d_drop", "d_nth", "d_nth_back", "d_count", "d_last", "d_collect", "d_rcollect", "d_fold", "d_rfold"}
 
 HIST_OP_PROPS = {
     "clear": set(), "swap_dimensions": set(), "reserve": set(), "reserve_exact": set(), "shrink_to_fit": set(),
@@ -199,7 +199,7 @@ def p_C05(ctx):
     # count too (C11 / C12 judge the array left behind; here only the ledger part of a rejection is attributed to C05)
     fm = 3
     ctx.priority_event = ledger_evidence     # if many histories are rejected, TLC judges those with ledger evidence first
-    rf = hist_tlc_edges(ctx, "faults", fm, fm, ops=("none",), faults=("iter", "clone", "default", "drop", "cmp"), workers=4)
+    rf = hist_tlc_edges(ctx, "faults", fm, fm, ops=("none",), faults=("iter", "clone", "default", "drop", "closure", "cmp"), workers=4)
     ctx.replay_and_validate(rf.cases_path, attr_fault_replay, attr_fault_event, profile="dev", elem="elem", cap=0, label="faults")
     rl = hist_tlc_edges(ctx, "leaks", fm, fm, ops=("leak_borrow",), faults=("forget",), workers=4)
     ctx.replay_and_validate(rl.cases_path, attr_fault_replay, attr_fault_event, profile="release", elem="elem", cap=1, label="leaks")
@@ -762,7 +762,8 @@ def p_C20(ctx):
                       (c["steps"][-1]["op"] in DRAIN_OPS and hist_drain_kind(c, len(c["steps"]) - 1) == "into_iter"))
     ctx.count_nontrivial(sel, hist_key)
     ctx.sample_from(sel, 2)
-    for prof, elem, cap in [("dev", "elem", 0), ("release", "u32", 1), ("dev", "zst", 2), ("release", "elem", 2)]:
+    # tok: Clone but not Copy and without drop glue - conversions must CLONE (fresh identity), a bitwise copy is a second owner
+    for prof, elem, cap in [("dev", "elem", 0), ("release", "u32", 1), ("dev", "zst", 2), ("release", "elem", 2), ("release", "tok", 0)]:
         ctx.replay(sel, attr_hist, profile=prof, elem=elem, cap=cap, label="conversions")
 
 
@@ -859,7 +860,7 @@ def p_C11(ctx):
     ctx.assumptions = HIST_ASSUME + ["std's unwinding semantics for panics inside element destructors"]
     rawmem_check(ctx)      # Layer B: the raw-memory algorithms satisfy the memory-level invariants at every crash point
     m = 3 if ctx.quick else 4
-    r = hist_tlc_edges(ctx, "faults", m, m, ops=("none",), faults=("iter", "clone", "default", "drop", "cmp"), workers=4)
+    r = hist_tlc_edges(ctx, "faults", m, m, ops=("none",), faults=("iter", "clone", "default", "drop", "closure", "cmp"), workers=4)
     ctx.count_nontrivial(r.cases_path, fault_key)
     ctx.sample_from(r.cases_path)
     # "tok": move-only elements without drop glue (needs_drop::<T>() is false): never dropped twice, yet duplicable
